@@ -219,6 +219,32 @@ def run(rec, tier, seed):
     if nkeys < 300:
         rec.fail("C20:ast-reader-broken", {"kind": "dup-reader"}, f"only {nkeys} literal keys found in elements.py")
 
+    # 3b. the tables are the same after the pipeline has been used (they are global, mutable dicts)
+    snap_e, snap_m, snap_cp = dict(vyxal.elements.elements), dict(vyxal.elements.modifiers), vyxal.encoding.codepage
+    odd = ["\n", "k", "∆", "ø", "Þ", "¨", "kq", "∆q", "é", "\\a", "→x", "←", "1", "`a`", "«a«", "⁺a", "X", "x", " ", "#c\n+"]
+    corpus = []
+    for m, ar in (("v", 1), ("&", 1), ("~", 1), ("ß", 1), ("ƒ", 1), ("ɖ", 1), ("⁽", 1), ("₌", 2), ("₍", 2), ("‡", 2), ("≬", 3)):
+        for tok in odd:
+            corpus.append(m + tok * ar)
+            corpus.append("1[" + m + tok + "+" * (ar - 1) + "|2]")
+    corpus += list(vyxal.elements.elements)[:60]
+    for prog in corpus:
+        rec.case(nontrivial=True, cls="table-stability-corpus")
+        try:
+            vyxal.transpile.transpile(prog)
+        except Exception:  # noqa: BLE001  (ill-formed corpus items may be rejected; only the tables matter here)
+            pass
+    changed = None
+    if dict(vyxal.elements.elements) != snap_e:
+        extra = [k for k in vyxal.elements.elements if k not in snap_e]
+        changed = f"the element table changed while transpiling: new keys {extra!r}" if extra else "an element table entry was replaced while transpiling"
+    elif dict(vyxal.elements.modifiers) != snap_m:
+        changed = "the modifier table changed while transpiling"
+    elif vyxal.encoding.codepage != snap_cp:
+        changed = "the code page changed while transpiling"
+    if changed:
+        rec.fail("C20:table-mutated-by-use", {"kind": "stability"}, changed + f" (corpus of {len(corpus)} programs: every modifier in front of non-element tokens)")
+
     # 4. documentation
     entries = yamlmini.load(repo=harness.REPO)
     counts = {}
@@ -274,6 +300,11 @@ def replay(case):
     if kind == "key":
         r = _check_key(case["table"], case["key"])
         return (f"C20:{r[0]}:{case['key']}", r[1]) if r else None
+    if kind == "stability":
+        rec = __import__("vx.campaign", fromlist=["Rec"]).Rec()
+        run(rec, "quick", 1)
+        f = rec.failures.get("C20:table-mutated-by-use")
+        return ("C20:table-mutated-by-use", f["msg"]) if f else None
     if kind == "positional":
         if not case["key"]:
             return None
